@@ -14,7 +14,7 @@ RULE = ("Hypothesis-generated nested 3D plotfiles (1-3 levels, partial refinemen
         "level-independent), T (level-tagged coded payload), R (random) x normal x constructed position class (cell "
         "centre / face / safe fraction between centres of a drawn level, interior box face, half-cell gap next to a "
         "box face, first / last half cell, domain faces, default, outside) x field list (1-4 fields, grid_level, all) "
-        "x level limit; 4 runs each (2 numpy.empty poisons x serial / scheduled pool). Oracles: A == alpha+beta*p "
+        "x level limit; 4 runs each (2 numpy.empty poisons x serial / scheduled pool), in 3 of 4 cases followed by a history (one object slicing at another position, then twice at p: bit-identical to the fresh result). Oracles: A == alpha+beta*p "
         "away from the domain faces; K == covering pattern; T == linear interpolation of the two bracketing stored "
         "samples at pixels where the statement leaves no freedom; grid_level in the levels having a box within half "
         "a cell; coordinates; default = domain centre; outside refused; runs bit-identical and poison-free. "
@@ -32,7 +32,8 @@ def cases(draw, tier="quick"):
     limit = draw(st.one_of(st.none(), st.integers(0, nlev - 1)))
     sched = dict(exec=[draw(st.lists(st.integers(0, 7), max_size=6)) for _ in range(nlev)])
     return dict(spec=spec, pos=draw(slicegen.positions(nlev)), mode=mode, fields=k, limit=limit, sched=sched,
-                cli=draw(st.sampled_from([False, False, False, True])))
+                cli=draw(st.sampled_from([False, False, False, True])),
+                hist=draw(st.sampled_from([None, "serial", "pool", "serial"])), pos2=draw(slicegen.positions(nlev)))
 
 
 def compact(case):
@@ -52,6 +53,10 @@ def check_case(case, ctx):
     L = plot.nlev - 1 if limit is None else limit
     p, pcls = slicegen.resolve_position(plot, cn, case["pos"], L)
     ctx.label(*labs, "pos:" + pcls, f"normal:{cn}", "mode:" + case["mode"])
+    if plot.payload.get("r_specials"):
+        ctx.label("R-with-inf/huge/denormal-samples")
+    if plot.payload.get("k_inf"):
+        ctx.label("K-with-infinite-columns")
     names = plot.fields
     if case["mode"] == "all":
         req, out_names, do_grid = ["all"], list(names), True
@@ -85,6 +90,30 @@ def check_case(case, ctx):
                 pools.set_schedule(None)
     out = runs[(POISONS[0], True)]
     v = []
+    if case.get("hist") and p is not None:
+        # (an object that has sliced before re-uses its previous position when none is given: only explicit positions here)
+        # history: one Mandoline object that has already sliced elsewhere (same normal) and at p itself answers p
+        # exactly as a fresh object does
+        ctx.label("history:reused-object-" + case["hist"])
+        hserial = case["hist"] == "serial"
+        p2, cls2 = slicegen.resolve_position(plot, cn, case["pos2"], L)
+        if cls2 == "outside":
+            p2 = None
+        pools.set_schedule(None)
+        try:
+            with poisoned_empty(POISONS[0]):
+                m = qcall(Mandoline, "src", fields=list(req), limit_level=limit, serial=hserial, verbose=0)
+                qcall(m.slice, normal=cn, pos=p2, fformat="return")
+                qcall(m.slice, normal=cn, pos=p, fformat="return")
+                again = qcall(m.slice, normal=cn, pos=p, fformat="return")
+            for name in out_names + (["grid_level"] if do_grid else []):
+                a, b = np.asarray(out.get(name)), np.asarray(again.get(name))
+                if a.shape != b.shape or not refread.same_bits(a.astype("<f8"), b.astype("<f8")):
+                    v.append(f"{name}: the third slice of one Mandoline object (after p2={p2!r} and p itself, serial={hserial}) "
+                             f"differs from the slice a fresh object returns at p={p!r} (normal {cn}, class {pcls})")
+                    break
+        except Exception as e:
+            v.append(f"re-using one Mandoline object raised {type(e).__name__}: {e} (p2={p2!r} then p={p!r} twice, serial={hserial})")
     if case.get("cli"):
         # the command line entry point, array format: the saved .npz must hold the arrays the API returns
         import amr_kitchen.mandoline.cli as cli
@@ -138,18 +167,29 @@ def check_case(case, ctx):
                          f"(normal {cn}, p={p!r}, class {pcls}, finest level there {ref['lstar'][ij]}); {int(bad.sum())} pixels")
         if name == "K":
             i0, j0 = np.meshgrid(np.arange(shape[0]) >> L, np.arange(shape[1]) >> L, indexing="ij")
-            exp = 1000.0 + 37.0 * i0 + 0.5 * j0
-            bad = ~(np.abs(g - exp) <= 1e-11 * np.abs(exp))
+            exp = slicegen.k_values(i0, j0, pp.get("k_inf"))
+            with np.errstate(all="ignore"):
+                bad = ~((g == exp) | (np.abs(g - exp) <= 1e-11 * np.abs(exp)))
             if bad.any():
                 ij = tuple(np.argwhere(bad)[0])
                 v.append(f"K (constant along the normal) differs from the covering data: pixel {ij} = {g[ij]!r}, "
                          f"expected {exp[ij]!r} (normal {cn}, p={p!r}, class {pcls}); {int(bad.sum())} pixels")
         if name in ("T", "R"):
-            exp = slicegen.reference_values(plot, cn, L, ref, names.index(name))
+            exp, scale, on_centre = slicegen.reference_values(plot, cn, L, ref, names.index(name), with_scale=True)
             m = ref["strict"] & ~np.isnan(exp)
+            extra = 0.0
+            if name == "R" and plot.payload.get("r_specials"):
+                # with infinite / 1e300 samples around, a plane on a cell centre is ill-conditioned (weight 0 or one
+                # ulp times an infinite neighbour): only planes strictly between two centres are asserted, with the
+                # rounding of the larger bracketing sample added to the tolerance
+                m = m & ~on_centre
+                with np.errstate(all="ignore"):
+                    extra = np.where(np.isfinite(scale), 1e-12 * scale, 0.0)
             ctx.counters["strict_pixels"] += int(m.sum())
             ctx.counters["pixels"] += int(m.size)
-            bad = m & ~(np.abs(g - exp) <= 1e-9 * np.maximum(np.abs(exp), 1.0))
+            with np.errstate(all="ignore"):
+                # equal infinities are equal; inf - inf (opposite infinite samples) is NaN in the reference and skipped above
+                bad = m & ~((g == exp) | (np.abs(g - exp) <= 1e-9 * np.maximum(np.abs(exp), 1.0) + extra))
             if bad.any():
                 ij = tuple(np.argwhere(bad)[0])
                 v.append(f"{name}: pixel {ij} = {g[ij]!r} is not the linear interpolation of the two bracketing stored "
